@@ -154,7 +154,8 @@ def gen_case(rng, tier, kind=None, N=None, nc=None):
         "stats": _special_stats(rng, _with_empty(rng, _gen_stats(rng, N, c, d, means, variances)),
                                 y, means),
         "y": y,
-        "yform": rng.choice(["list", "array", "bag", "int32", "uint8", "tuple"]),
+        "yform": rng.choice(["list", "array", "bag", "int32", "uint8", "tuple",
+                             "series_shuffled_index"]),
         "layout": _gen_layout(rng, N),
         # how the bag is built: partitions may reach the tasks as lists or as lazy single-pass
         # iterators (concatenation of mapped bags, generator partitions). ISV/JFA take len() of
@@ -425,6 +426,13 @@ def _labels(case, for_bag):
         return tuple(y) if for_bag else np.array(y)
     if f in ("int32", "uint8"):
         return np.array(y, dtype=getattr(np, f))
+    if f == "series_shuffled_index":
+        # the label column of a shuffled DataFrame: positions and index labels disagree
+        import pandas
+        idx = list(range(len(y)))
+        idx = idx[1:] + idx[:1] if len(idx) > 1 else idx
+        idx = idx[::-1]
+        return pandas.Series(list(y), index=idx) if for_bag else np.array(y)
     if f == "list" and for_bag:
         return list(y)
     if f == "bag" and for_bag:
